@@ -15,7 +15,7 @@ import sys
 # ------------------------------------------------------------------ lexeme atoms -> text
 # atoms not listed denote themselves
 CONCRETE = {
-    "SP": " ", "NL": "\n", "NLNL": "\n\n", "NL_SP_NL": "\n \n", "TAB": "\t", "CR": "\r",
+    "SP": " ", "NL": "\n", "NLNL": "\n\n", "NL_SP_NL": "\n \n", "TAB": "\t", "CR": "\r", "CRNL": "\r\n",
     "SP_NL": " \n", "NL_SP": "\n ", "NLNLNL": "\n\n\n",
     "EBAD": "\uebad", "NUL": "\0", "EBAC": "\uebac", "EBAE": "\uebae",
     "=TAB": "=\t", "SP{|": " {|", "SP|}": " |}", "SP|-": " |-", "TAB|-": "\t|-", "SP|": " |", "SP!": " !",
